@@ -148,6 +148,11 @@ class Ctx:
                     f.write(json.dumps(c, separators=(",", ":")) + "\n")
             parts.append((pcf, ptf))
         henv = dict(os.environ, VH_FLUSH="1") if crash_is_data else dict(os.environ)
+        # one budget of hang verdicts for all processes of this run (see eng_bereq.rs): the marker file says "enough"
+        budget = os.path.join(self.dir, f"{engine}{tag}.hangbudget")
+        if os.path.exists(budget):
+            os.remove(budget)
+        henv = dict(henv, VH_BUDGET_FILE=budget)
         def spawn(pcf, ptf):
             return subprocess.Popen([VH, engine, "--cases", pcf, "--out", ptf, "--seed", str(self.seed), "--tier", self.tier, *extra],
                                     stdout=subprocess.PIPE, stderr=subprocess.PIPE, text=True, preexec_fn=_die_with_parent, env=henv)
